@@ -7,6 +7,7 @@ import SifVerif.Proofs.Placed
 import SifVerif.Proofs.Refine
 import SifVerif.Proofs.Primary
 import SifVerif.Proofs.RangesStep
+import SifVerif.Proofs.CreateRanges
 namespace Sif.C02
 
 variable (sha : Bytes → Bytes) (ph : Bytes → Option Bytes)
@@ -238,6 +239,30 @@ theorem C02_refine_history_inputs (s : Img) (ops : List (Op × Int)) (W : WF s) 
       rw [h] at this
       simp [Res.outsideSpec] at this))
     hout
+
+/-- **from `CreateContainer` through any history**: creation options and inputs representable, no
+    store failure and no overflow refusal — then the handle presents exactly the objects the
+    reference model predicts from the created image's abstract view, and answers every operation as
+    the reference model does.  No hypothesis mentions an invariant of a state. -/
+theorem C02_from_creation (be : Backend) (co : CreateOpts) (hin : co.InRange) (hdoff : 128 ≤ co.doff)
+    (h : (createContainerPlan sha ph be co).2.2 = .ok) (ops : List (Op × Int)) :
+    ∃ st', (emptyStore be).calls (createContainerPlan sha ph be co).1 = some st' ∧
+      let s0 : Img := { (createContainerPlan sha ph be co).2.1 with st := st' }
+      ((∀ k op now, ops[k]? = some (op, now) → Op.InRange (runOps sha ph s0 (ops.take k)) op now) →
+       (∀ k op now, ops[k]? = some (op, now) →
+          (step sha ph (runOps sha ph s0 (ops.take k)) op now).2.outsideSpec = false) →
+       abs (runOps sha ph s0 ops) = (abs s0).runOps sha ph ops ∧
+       ∀ k op now, ops[k]? = some (op, now) →
+         (step sha ph (runOps sha ph s0 (ops.take k)) op now).2 =
+           (((abs s0).runOps sha ph (ops.take k)).step sha ph op now).2) := by
+  have hcap : co.capacity < maxU32 := by
+    by_cases hc : co.capacity ≥ maxU32
+    · unfold createContainerPlan at h; simp [hc] at h
+    · omega
+  obtain ⟨st', h1, W, P, _⟩ := createContainerPlan_ok sha ph be co hin.2.2.1 hdoff trivial h
+  obtain ⟨R, E⟩ := createContainerPlan_ranges sha ph be co hin hcap
+  exact ⟨st', h1, fun hi hout =>
+    C02_refine_history_inputs sha ph _ ops W P ⟨R.hv, R.dv⟩ E hi hout⟩
 
 /-- the input bounds are satisfiable: a set-metadata at an explicit time, at any clock reading in range -/
 example (s : Img) : Op.InRange s (.setMeta 1 (.raw [1]) (.at 1700000000)) 1700000000 := by
